@@ -75,7 +75,12 @@ Ctx10(L, E, R) ==
    [src |-> "{{ v = " \o L \o " }}{{ v.raw() }}{{ v.raw() }}", out |-> R \o R, c |-> "raw-twice"],
    [src |-> "{{ v = " \o L \o " }}{{ v.raw().len() > 999 ? 1 : \"\" }}[{{ v }}]", out |-> "[" \o E \o "]", c |-> "print-after-raw"],
    [src |-> "{{ v = [" \o L \o "] }}{{ w = v[0] }}{{ w.raw().len() > 999 ? 1 : \"\" }}[{{ v[0] }}]", out |-> "[" \o E \o "]", c |-> "print-after-raw-alias"]}
-Cases10(lits) == UNION {{[src |-> c.src, out |-> c.out, c |-> c.c, lit |-> Cat(l)] : c \in Ctx10(LitSrc(l, q), Cat(Escape(l)), Cat(l))} : l \in lits, q \in {"\"", "'"}}
+\* a backslash before the OTHER quote character is an ordinary byte of the literal
+OtherQuote10 == {[src |-> "{{ \"it\\'s\" }}", out |-> "it\\'s", c |-> "raw", lit |-> "it\\'s"],
+                 [src |-> "{{ 'say \\\"hi\\\"' }}", out |-> "say \\\"hi\\\"", c |-> "raw", lit |-> "say \\\"hi\\\""],
+                 [src |-> "{{ \"it\\'s\".raw() }}", out |-> "it\\'s", c |-> "raw", lit |-> "it\\'s"],
+                 [src |-> "{{ v = 'a\\\"b' }}{{ v }}|{{ [v][0] }}", out |-> "a\\\"b|a\\\"b", c |-> "raw", lit |-> "a\\\"b"]}
+Cases10(lits) == OtherQuote10 \cup UNION {{[src |-> c.src, out |-> c.out, c |-> c.c, lit |-> Cat(l)] : c \in Ctx10(LitSrc(l, q), Cat(Escape(l)), Cat(l))} : l \in lits, q \in {"\"", "'"}}
 \* The verdict for escaped contexts uses C10's own predicates (no raw angle bracket, every & starts an entity, quotes as
 \* written, unescaping gives the literal back), so that another entity spelling is not an alarm; `esc` is the
 \* specification's rendering, kept for diagnosis. raw() contexts must give exactly the original text.
